@@ -877,6 +877,71 @@ def judge_guard_many(ctx, metas, codes):
             ctx.disagree("Cases_C12_guardn", cid, dict(code=c, meta=rep))
 
 
+def run_inputs_reused(ctx):
+    """The catalog owns what it reports: after creation the caller may overwrite or reuse the arrays it handed over (the
+    centre array, the table columns); the centres, radii, counts and weight sums the catalog reports - the live object as
+    well as the reopened one - stay what they were, and so does the partition they describe."""
+    rng = ctx.rng
+    for rnd in range(ctx.n(4, 24)):
+        ncent = rng.choice([2, 3, 4])
+        cents = [offset(50.0 + 40.0 * rnd, -20.0 + 7.0 * rnd, k * 1.5, (k % 2) * 0.4) for k in range(ncent)]
+        pts = [p for k in range(ncent) for p in cluster(rng, cents[k][0], cents[k][1], rng.choice([2, 5, 9]), 0.4)]
+        rng.shuffle(pts)
+        cols = {"ra": np.array([p[0] for p in pts]), "dec": np.array([p[1] for p in pts]),
+                "w": np.array([rng.randrange(1, 17) / 4.0 for _ in pts])}
+        arr = np.deg2rad(np.asarray(cents, dtype="f8")).copy()
+        how = rng.choice(["coordinates", "coordinates", "rows", "catalog"])
+        if how == "coordinates":
+            given = impl.AngularCoordinates(arr)
+        elif how == "rows":
+            given = impl.AngularCoordinates.from_coords([impl.AngularCoordinates(arr[i]) for i in range(ncent)]) \
+                if hasattr(impl.AngularCoordinates, "from_coords") else impl.AngularCoordinates(arr)
+        else:
+            given = impl.AngularCoordinates(arr)
+        workers = rng.choice([1, 1, 3])
+        try:
+            if workers == 1:
+                cat = impl.Catalog.from_dataframe(impl.fresh_dir(ctx, "reuse"), impl.make_df(cols), ra_name="ra", dec_name="dec",
+                                                  weight_name="w", patch_centers=given, chunksize=rng.choice([None, 4, 7]), max_workers=1)
+            else:
+                with simpool.patched(simpool.Schedule("random", seed=rng.randrange(10 ** 6))):
+                    impl.set_threads(workers)
+                    cat = impl.Catalog.from_dataframe(impl.fresh_dir(ctx, "reuse"), impl.make_df(cols), ra_name="ra", dec_name="dec",
+                                                      weight_name="w", patch_centers=given, chunksize=rng.choice([4, 7]), max_workers=workers)
+                impl.set_threads(1)
+        except ValueError as e:
+            if "contains no data" in str(e) or "do not match" in str(e):
+                ctx.bump("reuse_skipped_empty_patch")
+                continue
+            raise
+
+        def view(c):
+            return (c.get_centers().data.tobytes(), c.get_radii().data.tobytes(), tuple(c.get_num_records()),
+                    tuple(float(x).hex() for x in c.get_sum_weights()),
+                    tuple((k, p.meta.center.data.tobytes(), p.meta.radius.data.tobytes()) for k, p in c.items()))
+        before = view(cat)
+        want_centres = arr.copy()
+        # the caller goes on using its arrays
+        arr += 0.5
+        arr[:, 1] *= -1.0
+        for v in cols.values():
+            v[:] = 0.0
+        after = view(cat)
+        re = view(impl.Catalog(cat.cache_directory, max_workers=1))
+        ctx.count(key=("reuse", rnd, how, workers), nontrivial=True, kind="inputs-reused/%s/w%d" % (how, workers))
+        rp = dict(centres=[[float(x).hex() for x in c] for c in want_centres.tolist()], how=how, workers=workers, n=len(pts))
+        if after != before:
+            ctx.fail("c12-reported-metadata-follows-callers-array",
+                     "after the caller overwrote the arrays it had handed to the creation, the live catalog reports other centres / radii / "
+                     "counts than right after creation (the reported centres no longer describe the stored partition)", rp, case=("reuse", rnd))
+        elif cat.get_centers().data.tobytes() != want_centres.tobytes():
+            ctx.fail("c12-centres-not-the-given-ones", "the catalog does not report the given centres bit for bit", rp, case=("reuse", rnd))
+        if re != before:
+            ctx.fail("c12-reopened-metadata-differs", "the catalog reopened from its cache reports other centres / radii / counts than the "
+                     "live object right after creation", rp, case=("reuse-reopen", rnd))
+        shutil.rmtree(str(cat.cache_directory), ignore_errors=True)
+
+
 def run(ctx):
     import yaw
     from yaw.catalog.catalog import InconsistentPatchesError
@@ -1051,6 +1116,8 @@ def run(ctx):
     run_options(ctx, terms, metas)
     # ---- every creation route x centres given or made: the reported centres are the ones the partition used ----
     run_routes(ctx, terms, metas)
+    # ---- the caller reuses the arrays it handed over ----
+    run_inputs_reused(ctx)
     codes = ctx.shards("Cases_C12_meta", HEADER, terms, shard=200)
     for (cid, meta), c in zip(metas, codes):
         if not c:
